@@ -65,33 +65,40 @@ fn cmsg_exact_fit_garbage_after() {
 }
 
 // Exact-size heap allocation as control buffer: any load past it is a pointer-check failure.
-// @ob C16 quick cmsg_exact_fit_heap fns=MsgHdrBorrow::control_messages,ControlMessageIterator::next,cmsg_nxthdr! bound="1..=2 descriptors, control buffer = heap object of exactly CMSG_SPACE bytes" timeout=900
-#[kani::proof]
-#[kani::unwind(6)]
-fn cmsg_exact_fit_heap() {
-    let n: usize = kani::any();
-    kani::assume(n >= 1 && n <= 2);
-    let f0: i32 = kani::any();
-    let f1: i32 = kani::any();
-    kani::assume(f0 >= 0 && f1 >= 0);
-    let fds = [f0, f1];
-    let space = cmsg_space(4 * n);
-    let mut v: Vec<u64> = Vec::with_capacity(space / 8); // 8-aligned
-    unsafe { v.set_len(space / 8) };
-    let bytes = unsafe { core::slice::from_raw_parts_mut(v.as_mut_ptr().cast::<u8>(), space) };
-    let mut i = 0;
-    while i < space {
-        bytes[i] = 0;
-        i += 1;
-    }
-    kernel_writes_rights(bytes, &fds[..n]);
-    kani::cover!(n == 1, "one descriptor (4 data bytes + 4 padding)");
-    let mut iobuf = [0u8; 1];
-    let mut io = [IoSliceMut::new(&mut iobuf)];
-    let hdr = MsgHdrBorrow::create_recv(&mut io, Some(bytes));
-    check_iteration(&hdr, &fds[..n]);
-    core::mem::forget(v);
+// (one instance per descriptor count: a heap object of symbolic size exhausted 24 GB)
+macro_rules! exact_fit_heap {
+    ($name:ident, $n:expr) => {
+        #[kani::proof]
+        #[kani::unwind(34)]
+        fn $name() {
+            const N: usize = $n;
+            let f0: i32 = kani::any();
+            let f1: i32 = kani::any();
+            kani::assume(f0 >= 0 && f1 >= 0);
+            let fds = [f0, f1];
+            let space = cmsg_space(4 * N);
+            let mut v: Vec<u64> = Vec::with_capacity(space / 8); // 8-aligned
+            unsafe { v.set_len(space / 8) };
+            let bytes = unsafe { core::slice::from_raw_parts_mut(v.as_mut_ptr().cast::<u8>(), space) };
+            let mut i = 0;
+            while i < space {
+                bytes[i] = 0;
+                i += 1;
+            }
+            kernel_writes_rights(bytes, &fds[..N]);
+            kani::cover!(f0 == 3, "a descriptor value");
+            let mut iobuf = [0u8; 1];
+            let mut io = [IoSliceMut::new(&mut iobuf)];
+            let hdr = MsgHdrBorrow::create_recv(&mut io, Some(bytes));
+            check_iteration(&hdr, &fds[..N]);
+            core::mem::forget(v);
+        }
+    };
 }
+// @ob C16 quick cmsg_exact_fit_heap_1 fns=MsgHdrBorrow::control_messages,ControlMessageIterator::next,cmsg_nxthdr! bound="1 descriptor (4 data bytes + 4 padding), control buffer = heap object of exactly CMSG_SPACE bytes" timeout=900
+exact_fit_heap!(cmsg_exact_fit_heap_1, 1);
+// @ob C16 quick cmsg_exact_fit_heap_2 fns=MsgHdrBorrow::control_messages,ControlMessageIterator::next,cmsg_nxthdr! bound="2 descriptors, control buffer = heap object of exactly CMSG_SPACE bytes" timeout=900
+exact_fit_heap!(cmsg_exact_fit_heap_2, 2);
 
 // Buffer larger than needed and zero-filled (the only case the repository's tests exercise), and too small for a header.
 // @ob C16 quick cmsg_larger_and_smaller fns=MsgHdrBorrow::control_messages,ControlMessageIterator::next,cmsg_firsthdr! bound="control buffer of 0..=15 bytes (no header fits) or 40 zero-filled bytes with one message" timeout=900
